@@ -78,8 +78,8 @@ class C07(Check):
         "finalized; image size and current frame unchanged; animations swallow Ctrl-C, stills propagate it."
     )
     rule = (
-        "one case = one (shape, path, fault position, cut point) query; fault position and cut point are solver-owned; non-trivial = a "
-        "solver call was needed; distinct = distinct (shape, decision prefix, claim)"
+        "one case = one (shape, path, fault position, cut point) obligation; fault position and cut point are solver-owned; non-trivial = "
+        "the path contains at least one solver-made decision or the claim needed a solver call; distinct = distinct (shape, decision prefix, claim)"
     )
     assumptions = [
         "terminal model sx/term.py (C0 controls inside a control sequence are executed, ESC aborts it; APC/OSC strings swallow output until ST)",
